@@ -669,7 +669,8 @@ fn blob_case(rng: &mut Rng) -> (&'static str, &'static str, String, String) {
     let mut blob: Vec<char> = base.chars().collect();
     if rng.chance(1, 2) {
         let k = rng.below(blob.len() as u64 + 1) as usize;
-        blob.insert(k, *rng.pick(&['\u{e9}', '\u{3042}', '\u{1F600}', '\u{ff10}', '\u{0660}', '\u{a0}', '\u{200b}', 'é']));
+        blob.insert(k, *rng.pick(&['\u{e9}', '\u{3042}', '\u{1F600}', '\u{ff10}', '\u{0660}', '\u{a0}', '\u{200b}', 'é', '\u{3042}', '\u{1F600}']));
+        if rng.chance(1, 2) { let k2 = rng.below(blob.len() as u64 + 1) as usize; blob.insert(k2, *rng.pick(&['\u{e9}', '\u{3042}', '0'])); }
     }
     let blob: String = blob.into_iter().collect();
     let pseudo = match rng.below(8) {
@@ -738,8 +739,14 @@ fn generate(seeds: &[Seed], budget: usize, tier: &str, rng: &mut Rng) -> Vec<Inp
     let configs: [(&str, &str, &[&str]); 12] = [("truanm", "6", &[]), ("truanm", "12", &[]), ("truanm", "17", &[]), ("trustd", "6", &[]), ("trustd", "8", &[]), ("trustd", "12", &[]),
         ("trumsg", "6", &[]), ("trumsg", "12", &[]), ("trumsg", "10", &["--ending"]), ("trumsg", "095", &["--mission"]), ("truecl", "6", &[]), ("truecl", "10", &[])];
     while out.len() < budget {
-        let c = g.below(181);
-        if c >= 174 {
+        let c = g.below(193);
+        if c >= 186 {
+            let (tool, game, src, map, desc) = string_arg_case(&mut g);
+            out.push(Input { tool: tool.into(), game: game.into(), flags: vec![], kind: "string-arg", desc, source: src.into_bytes(), mapfile: Some(map.into_bytes()) });
+        } else if c >= 181 {
+            let (tool, game, src, desc) = blob_case(&mut g);
+            out.push(Input { tool: tool.into(), game: game.into(), flags: vec![], kind: "blob", desc, source: src.into_bytes(), mapfile: None });
+        } else if c >= 174 {
             let (tool, game, src, desc) = blob_case(&mut g);
             out.push(Input { tool: tool.into(), game: game.into(), flags: vec![], kind: "blob", desc, source: src.into_bytes(), mapfile: None });
         } else if c >= 167 {
@@ -865,11 +872,15 @@ fn report(inputs: &[Input], res: &[(usize, Outcome)], mode: &str, compiled_ok: u
     let mut hist: BTreeMap<String, usize> = BTreeMap::new(); let mut cfg: BTreeMap<String, usize> = BTreeMap::new();
     for i in inputs { *hist.entry(i.kind.to_string()).or_insert(0) += 1; *cfg.entry(format!("{}-g{}{}", i.tool, i.game, i.flags.join(""))).or_insert(0) += 1; }
     let mut per_class: BTreeMap<String, usize> = BTreeMap::new();
+    let mut per_ck: BTreeMap<String, usize> = BTreeMap::new();
     for (k, o) in res {
         if o.ok { continue; }
         let i = &inputs[*k];
         *per_class.entry(o.class.clone()).or_insert(0) += 1;
-        if per_class[&o.class] <= 3 {
+        // examples are kept per (class, generator kind): the same panic site reached by a different kind of input is a different story
+        let ck = format!("{}@{}", o.class, i.kind);
+        *per_ck.entry(ck.clone()).or_insert(0) += 1;
+        if per_ck[&ck] <= 2 {
             println!("FAIL\t{}\t{}\t{}\t{}\t{}\t{}\t{}\t{}\t{}\t{}", mode, o.class, o.detail.replace('\t', " "), i.tool, i.game, i.flags.join(","), i.kind,
                      i.desc.replace('\t', " "), hex(&i.source), i.mapfile.as_ref().map(|m| hex(m)).unwrap_or_else(|| "-".into()));
         }
